@@ -97,14 +97,19 @@ def check_disc(ctx, case):
                 ok = got == e
         else:
             terms = vals if name == 'nansum' else [abs(v) for v in vals]
-            e = math.fsum(terms)
-            tol = (len(terms) + 1) * eps * math.fsum(abs(v) for v in terms) + 1e-300
-            ok = abs(got - e) <= tol
+            if any(math.isinf(v) for v in terms):
+                # infinities are values, not missing entries: the sum is +-inf, or NaN when both signs meet
+                e = float('nan') if (float('inf') in terms and float('-inf') in terms) else (float('inf') if float('inf') in terms else float('-inf'))
+                ok = (math.isnan(got) and math.isnan(e)) or got == e
+            else:
+                e = math.fsum(terms)
+                tol = (len(terms) + 1) * eps * math.fsum(abs(v) for v in terms) + 1e-300
+                ok = abs(got - e) <= tol
         if not ok:
             raise Violation('%s axis=%s lane %s: got %r, definition over non-NaN entries gives %r' % (name, axis, idx, got, e), case)
     if not np.array_equal(data, d0, equal_nan=True):
         raise Violation('discriminant modified its input', case)
-    ctx.case(case, has_nan or ax != data.ndim - 1, ['disc:' + name, 'has_nan' if has_nan else 'no_nan', 'axis:last' if ax == data.ndim - 1 else 'axis:other', 'ndim:%d' % data.ndim])
+    ctx.case(case, has_nan or ax != data.ndim - 1, ['disc:' + name, 'has_nan' if has_nan else 'no_nan'] + (['has_inf'] if np.isinf(data).any() else []) + ['axis:last' if ax == data.ndim - 1 else 'axis:other', 'ndim:%d' % data.ndim])
 
 
 def replay(ctx, case):
@@ -170,6 +175,8 @@ def disc_cases(draw):
     shape = tuple(draw(st.lists(st.integers(1, 5), min_size=2, max_size=4)))
     axis = draw(st.one_of(st.none(), st.just(-1), st.integers(0, len(shape) - 1)))
     els = st.one_of(st.floats(-1e3, 1e3, width=32), st.just(float('nan')), st.sampled_from([0.0, -0.0, 1.0, -1.0]))
+    if draw(st.integers(0, 3)) == 0:
+        els = st.one_of(els, st.sampled_from([float('inf'), float('-inf')]))      # infinite entries are not NaN: they take part in the reduction
     data = draw(hnp.arrays(dt, shape, elements=els))
     if draw(st.booleans()):
         # force an all-NaN lane along the reduced axis
